@@ -89,6 +89,9 @@ ENTRY = {'coq_dir': 'C17',
      ['(callers) what enters the store: validation mode, sender = provider, address truncation, publisher / expiry on receipt',
       'C17_loop_only_store_ops, C17_manual_mode_no_remote_record, C17_remote_adds_only_sender, C17_remote_keeps_local_registrations, C17_loop_address_bound, C17_source_tables_covered',
       'kad cases on the real Kademlia::run; corpus w3'],
+     ['(oracle) prop_ok judges the property text, not "equals the model"',
+      'C17_oracle_invariant_sound, C17_oracle_invariant_complete, C17_oracle_spec_is_theorem_spec',
+      'driver ok on implementation and model traces of every case'],
      ['(refresh) local providers are re-announced: only provided keys, stored quorum, not before the interval, none skipped',
       'C17_local_providers_sync, C17_refresh_only_provided, C17_refresh_after_interval, C17_poll_fires_all_due, C17_refresh_future_count, C17_loop_refresh_armed, C17_default_refresh_before_expiry',
       'timed cases (next_action under the paused clock, deadline +-1 ms); kad cases (refresh actions of the loop)']]}
